@@ -161,3 +161,21 @@ package ledger
 //@   loop 1 invariant balances != nil && (forall a2 string :: in(a2, visited) ==> has(balances, a2) && balances[a2] != nil && val(balances[a2]) == val(v[a2].Input) - val(v[a2].Output))
 //@   modifies map[string]*big.Int
 //@   property C04
+
+// ---- C13: dates. The hash of an entry is computed over a date with microsecond precision (Now / ParseTime round to it).
+// What is written to the store and to JSON must keep that precision, or the entry read back differs from the one hashed:
+// both writers format with the nanosecond RFC 3339 layout, which is also the layout the readers parse with.
+//@ func (ledger.Time).Value
+//@   ensures err == nil && ret0 == anyof(lib("(time.Time).Format", t.Time, "2006-01-02T15:04:05.999999999Z07:00"))
+//@   modifies nothing
+//@   property C13
+//@ func (ledger.Time).MarshalJSON
+//@   ensures err == nil && ret0 == bytes(sprintf("\"%s\"", lib("(time.Time).Format", t.Time, "2006-01-02T15:04:05.999999999Z07:00")))
+//@   modifies nothing
+//@   property C13
+
+// copies of volume tables (used by the store when it derives pre-commit volumes): a fresh table, the original untouched
+//@ func (ledger.AccountsAssetsVolumes).Copy
+//@   ensures ret != nil
+//@   modifies map[string]ledger.VolumesByAssets, map[string]*ledger.Volumes, ledger.Volumes.*
+//@   trusted straight copy loops over two nested maps (not part of a property clause; its frame is what callers need)
